@@ -15,14 +15,15 @@ ANCHORS = ['pycaption.scc:SCCReader._flush_implicit_buffers',
            'pycaption.scc.specialized_collections:TimingCorrectingCaptionList.extend']
 REQUIRE = {'streams_roll': 50, 'streams_paint': 50, 'mode_switches': 20, 'rows_checked': 500,
            'streams_starting_at_zero': 20, 'depth_2': 5, 'depth_3': 5, 'depth_4': 5, 'chars_conserved': 5000,
-           'rows_with_special_or_extended': 20}
+           'rows_with_special_or_extended': 20, 'abandoned_pop_on_loads': 10, 'end_equals_next_start_checked': 500}
 
 
 def cases(ctx):
     rng = ctx.rng('c16')
     for _ in range(ctx.budget(9000, 300000)):
         modes = rng.choice([['roll'], ['paint'], ['roll', 'paint'], ['paint', 'roll'], ['roll', 'roll'],
-                            ['roll', 'pop'], ['paint', 'pop'], ['roll', 'paint', 'pop']])
+                            ['roll', 'pop'], ['paint', 'pop'], ['roll', 'paint', 'pop'], ['pop', 'roll', 'pop'],
+                            ['pop', 'paint', 'pop'], ['roll', 'pop', 'paint']])
         yield {'stream': G.gen_stream(rng, modes=modes, rich=rng.random() < 0.4)}
 
 
@@ -51,6 +52,8 @@ def check(case, ctx):
         ctx.count('mode_switches', len(modes) - 1)
     if st['start_frame'] == 0:
         ctx.count('streams_starting_at_zero')
+    ctx.count('abandoned_pop_on_loads', sum(1 for s in st['segments'] if s['mode'] == 'pop'
+                                            for c in s['captions'] if c.get('abandoned')))
     for s in st['segments']:
         if s['mode'] == 'roll':
             ctx.count('depth_%d' % s['depth'])
@@ -64,6 +67,7 @@ def check(case, ctx):
     texts = [c.get_text() for c in caps]
     sent = ''.join(_squash(r) for r in rows)
     got = ''.join(_squash(t) for t in texts)
+    cap_modes = [set() for _ in texts]
     ctx.count('chars_conserved', len(sent))
     ctx.count('rows_checked', len(rows))
     ctx.count('rows_with_special_or_extended', sum(1 for r in rows if any(ord(ch) > 127 for ch in r)))
@@ -78,7 +82,7 @@ def check(case, ctx):
         ci = 0
         pos = 0
         squashed = [_squash(t) for t in texts]
-        for r in rows:
+        for r, mode in zip(rows, rows.modes):
             rs = _squash(r)
             while ci < len(squashed) and pos >= len(squashed[ci]):
                 ci += 1
@@ -88,6 +92,7 @@ def check(case, ctx):
                               'captions': texts[:8], 'doc': doc})
                 break
             pos += len(rs)
+            cap_modes[ci].add(mode)
     for i, c in enumerate(caps):
         if not c.start < c.end:
             fails.append({'what': 'caption without start < end', 'caption': i, 'times': [c.start, c.end], 'doc': doc})
@@ -95,8 +100,14 @@ def check(case, ctx):
             n = caps[i + 1]
             if n.start < c.start:
                 fails.append({'what': 'captions not ordered by start', 'caption': i, 'doc': doc})
-            # pop-on captions at the end of the stream follow C06's rules (an EDM may end them early)
-            if modes[-1] != 'pop' or i + 1 < len(caps) - _pop_caption_count(st):
+            # pop-on captions follow C06's rules (an EDM may end them early): the clause is about two
+            # neighbouring roll-up / paint-on captions with no pop-on load (even an abandoned one) between
+            a, b = cap_modes[i], cap_modes[i + 1]
+            both_implicit = (not fails and sent == got and a and b
+                             and all(m != 'pop' for m, _ in a | b)
+                             and all(modes[k] != 'pop' for k in range(max(s for _, s in a) + 1, min(s for _, s in b))))
+            if both_implicit:
+                ctx.count('end_equals_next_start_checked')
                 if abs(c.end - n.start) > 1e-6:
                     fails.append({'what': 'caption does not end exactly when the next one begins', 'caption': i,
                                   'end': c.end, 'next_start': n.start, 'doc': doc})
@@ -108,6 +119,8 @@ def _pop_caption_count(st):
     for seg in st['segments']:
         if seg['mode'] == 'pop':
             for cap in seg['captions']:
+                if cap.get('abandoned'):
+                    continue
                 rows = [r['row'] for r in cap['rows']]
                 groups = 1 + sum(1 for a, b in zip(rows, rows[1:]) if b != a + 1)
                 n += groups
